@@ -138,9 +138,10 @@ Proof. exact: separated_no_edge. Qed.
 Print Assumptions C16_group_no_edge.
 
 (* ---- non-vacuity ---- *)
-(* D10's 2x2 biorthogonal instance, scaled to integers over rat:
-   A = [[9,-10],[0,0]], Phi = (10, 9)^T, PhiL^H = (0, 1/9); dropped row 1 (left kernel),
-   constrained column 0 (right kernel). *)
+(* the grouping model on a concrete spectrum, and the hypotheses of C16_direct on the
+   smallest instance (A = 0 on a one-dimensional space, kernel = everything, no equation
+   kept: D = 0).  Larger instances (biorthogonal 2x2 of finding D10, degenerate groups of
+   size up to 3, n <= 8) have their hypotheses checked exactly by k_greens.tie_greens. *)
 Example C16_ex_group :
   group_close_energies (5 :: 0 :: 6 :: 20 :: 1 :: nil)%ZZ 1%ZZ
   = ((1 :: 4 :: nil) :: (0 :: 2 :: nil) :: (3 :: nil) :: nil)%nat.
